@@ -959,7 +959,13 @@ class Watcher(object):
 
         self._create_redirectors()
         self.reap_processes()
-        yield self.spawn_processes()
+        try:
+            yield self.spawn_processes()
+        except Exception:
+            # the start failed half-way (e.g. the pre-exec step of a worker
+            # raised): do not stay in the 'starting' status for ever
+            yield self._stop(True)
+            raise
 
         # If not self.processes, the before_spawn or after_spawn hooks have
         # probably prevented startup so give up
